@@ -216,6 +216,9 @@ Definition mon_C12 (x o : sx) : sx :=
        then verdict_kf false "a 200 response did not carry a version of the resource" "F39-chunked-cut"
        else verdict false "a 200 response did not carry a version of the resource"
   else if negb (Z.eqb (sx_int (sx_nth 3 o)) 0) then verdict false "the key was left locked"
+  else if Nat.ltb (length (filter (fun a => str_eqb (sx_str (sx_nth 0 a)) (bytes "arrive") && str_eqb (sx_str (sx_nth 2 a)) (bytes "cond")) (sx_list (sx_nth 4 x))))
+                  (length (filter (fun k => str_eqb (key_field k 0) (bytes "304")) outs))
+  then verdict false "a request that sent no validator was answered 304 (not served at all)"
   else v_ok.
 
 (* C13: after any failure the key is neither wedged nor poisoned: a later plain request is answered
